@@ -1,0 +1,111 @@
+//go:build verif
+
+// Copyright 2026 Dolthub, Inc.
+//
+// Licensed under the Apache License, Version 2.0 (the "License");
+// you may not use this file except in compliance with the License.
+// You may obtain a copy of the License at
+//
+//     http://www.apache.org/licenses/LICENSE-2.0
+//
+// Unless required by applicable law or agreed to in writing, software
+// distributed under the License is distributed on an "AS IS" BASIS,
+// WITHOUT WARRANTIES OR CONDITIONS OF ANY KIND, either express or implied.
+// See the License for the specific language governing permissions and
+// limitations under the License.
+
+package cluster
+
+import (
+	"context"
+	"time"
+
+	"github.com/sirupsen/logrus"
+
+	"github.com/dolthub/dolt/go/libraries/doltcore/doltdb"
+	"github.com/dolthub/dolt/go/store/datas"
+	"github.com/dolthub/dolt/go/store/hash"
+)
+
+// VerifCommitHook exposes the unexported standby-replication commit hook to the verification
+// harness (build tag verif only).  Every method calls the real code; nothing is re-implemented.
+type VerifCommitHook struct {
+	h      *commithook
+	cancel context.CancelFunc
+}
+
+// VerifNewCommitHook builds a commithook exactly as Controller.applyCommitHooks does.
+func VerifNewCommitHook(lgr *logrus.Logger, remotename, remoteurl, dbname string, role Role, destDBF func(context.Context) (*doltdb.DoltDB, error), srcDB *doltdb.DoltDB, tempDir string) *VerifCommitHook {
+	return &VerifCommitHook{h: newCommitHook(lgr, remotename, remoteurl, dbname, role, destDBF, srcDB, tempDir)}
+}
+
+// StartReplicateThread starts the real replicate goroutine (without the 1 s ticker goroutine, so
+// that the thread only wakes on Execute / setRole / Kick).  parked is called, under h.mu, each time
+// the thread is about to wait on its condition variable.
+func (v *VerifCommitHook) StartReplicateThread(ctxF SqlContextFactory, parked func()) {
+	v.h.sqlCtxFactory = ctxF
+	v.h.setWaitNotify(parked)
+	ctx, cancel := context.WithCancel(context.Background())
+	v.cancel = cancel
+	v.h.wg.Add(1)
+	go v.h.replicate(ctx)
+}
+
+// Stop shuts the replicate thread down the way commithook.run does.
+func (v *VerifCommitHook) Stop() {
+	v.h.shutdown.Store(true)
+	if v.cancel != nil {
+		v.cancel()
+	}
+	v.h.mu.Lock()
+	if v.h.cancelReplicate != nil {
+		v.h.cancelReplicate()
+		v.h.cancelReplicate = nil
+	}
+	v.h.cond.Signal()
+	v.h.mu.Unlock()
+	v.h.wg.Wait()
+}
+
+// Execute is commithook.Execute.
+func (v *VerifCommitHook) Execute(ctx context.Context, ds datas.Dataset, db *doltdb.DoltDB) (func(context.Context) error, error) {
+	return v.h.Execute(ctx, ds, db)
+}
+
+// SetRole is commithook.setRole.
+func (v *VerifCommitHook) SetRole(role Role) { v.h.setRole(role) }
+
+// Kick clears the back-off after a failed attempt and wakes the replicate thread (what the 1 s
+// ticker plus the passing of time do in production).
+func (v *VerifCommitHook) Kick() {
+	v.h.mu.Lock()
+	defer v.h.mu.Unlock()
+	v.h.nextPushAttempt = time.Time{}
+	v.h.cond.Signal()
+}
+
+// VerifHookState is a snapshot of the hook's replication state, taken under h.mu.
+type VerifHookState struct {
+	NextHead       hash.Hash
+	LastPushedHead hash.Hash
+	Role           Role
+	CaughtUp       bool
+	HasWaiters     bool
+	CurrentError   string
+}
+
+func (v *VerifCommitHook) State() VerifHookState {
+	v.h.mu.Lock()
+	defer v.h.mu.Unlock()
+	s := VerifHookState{
+		NextHead:       v.h.nextHead,
+		LastPushedHead: v.h.lastPushedHead,
+		Role:           v.h.role,
+		CaughtUp:       v.h.isCaughtUp(),
+		HasWaiters:     v.h.progressNotifier.HasWaiters(),
+	}
+	if v.h.currentError != nil {
+		s.CurrentError = *v.h.currentError
+	}
+	return s
+}
